@@ -55,19 +55,20 @@ const U_POLL: u32 = 107;
 const U_PUSH: u32 = 110;
 const U_PUSHED: u32 = 111;
 
-#[derive(Default)]
-struct CountWaker(std::sync::atomic::AtomicUsize);
+struct CountWaker(std::sync::atomic::AtomicUsize, u64);
 
 impl std::task::Wake for CountWaker {
     fn wake(self: std::sync::Arc<Self>) {
-        self.0.fetch_add(1, std::sync::atomic::Ordering::SeqCst);
+        self.wake_by_ref()
     }
     fn wake_by_ref(self: &std::sync::Arc<Self>) {
+        verif::emit(U_WAKE, self.1, 0);
         self.0.fetch_add(1, std::sync::atomic::Ordering::SeqCst);
     }
 }
 
 const U_SETWAKER: u32 = 108;
+const U_WAKE: u32 = 109;
 
 fn errno_of(e: &std::io::Error) -> u64 {
     e.raw_os_error().unwrap_or(9999) as u64
@@ -153,7 +154,7 @@ fn run(case: &[u64]) -> Result<Vec<u64>, BadCase> {
     let mut proactor = Some(builder.build().map_err(|_| BadCase)?);
     let mut slots: Vec<Slot> = Vec::new();
     let wake_counts: Vec<std::sync::Arc<CountWaker>> =
-        (0..16).map(|_| std::sync::Arc::new(CountWaker::default())).collect();
+        (0..16).map(|i| std::sync::Arc::new(CountWaker(Default::default(), i))).collect();
     let mut listener: Option<SharedFd<socket2::Socket>> = None;
     let mut listen_addr: Option<std::net::SocketAddr> = None;
     let mut clients: Vec<std::net::TcpStream> = Vec::new();
@@ -623,6 +624,14 @@ fn run(case: &[u64]) -> Result<Vec<u64>, BadCase> {
         let _ = p.poll(Some(Duration::ZERO));
         drop(p);
     }
+    // the last ref of a thread-pool job is dropped by its pool thread some time after
+    // BLOCKING_END: give it time to report the release (a leak is reported after the wait)
+    let t0 = std::time::Instant::now();
+    while verif::count(verif::KEY_FREE) < verif::count(verif::KEY_NEW)
+        && t0.elapsed() < Duration::from_millis(500)
+    {
+        std::thread::sleep(Duration::from_millis(1));
+    }
     let log = verif::take();
 
     // ---- encode: renumber storage addresses by order of KEY_NEW, map slots to keys
@@ -669,8 +678,9 @@ fn run(case: &[u64]) -> Result<Vec<u64>, BadCase> {
             if k == U_PUSH || k == U_PUSHED {
                 continue;
             }
-            if k == U_POLL {
-                // poll boundaries: a = 0 begin / 1 end, not tied to an operation
+            if k == U_POLL || k == U_WAKE {
+                // poll boundaries: a = 0 begin / 1 end, not tied to an operation;
+                // waker invocations: a = waker id
                 evs.push((k as u64, e.a, e.b as u64));
                 continue;
             }
